@@ -100,7 +100,7 @@ func (s Seq) String() string {
 }
 
 // Families lists the generic families usable at any length.
-var Families = []string{"uniform", "biased", "slight", "zeros", "ones", "alt", "periodic", "byteperiodic", "markov", "singlerun", "sparse", "lfsr", "balanced"}
+var Families = []string{"uniform", "biased", "slight", "zeros", "ones", "alt", "periodic", "byteperiodic", "markov", "singlerun", "sparse", "lfsr", "balanced", "longruns"}
 
 // Explicit wraps a concrete bit vector into a descriptor.
 func Explicit(bits []uint8) Seq {
@@ -281,6 +281,40 @@ func (s Seq) Bits() []uint8 {
 			pos += step
 			if (step == 1) == up {
 				out[i] = 1
+			}
+		}
+	case "longruns": // random background with a few inserted runs (ones and zeros) of lengths around powers of two
+		var w uint64
+		for i := 0; i < n; i++ {
+			if i%64 == 0 {
+				w = r.U64()
+			}
+			out[i] = uint8(w & 1)
+			w >>= 1
+		}
+		lens := []int{15, 16, 17, 31, 32, 33, 63, 64, 65, 127, 128, 129, 255, 256, 257, 261, 300, 511, 512, 515, 1023, 1024, 1030, 4095, 4096, 4100, 65535, 65536, 65540}
+		k := s.A
+		if k <= 0 {
+			k = 1 + r.Intn(4)
+		}
+		for j := 0; j < k; j++ {
+			l := lens[r.Intn(len(lens))]
+			if l >= n/2 {
+				l = lens[r.Intn(12)]
+			}
+			if l >= n {
+				continue
+			}
+			st := r.Intn(n - l)
+			v := uint8(r.U64() & 1)
+			for i := st; i < st+l; i++ {
+				out[i] = v
+			}
+			if st > 0 {
+				out[st-1] = v ^ 1
+			}
+			if st+l < n {
+				out[st+l] = v ^ 1
 			}
 		}
 	case "bytepat": // Hex pattern bytes repeated
